@@ -121,3 +121,36 @@ func TestReplay(t *testing.T) {
 		}
 	}
 }
+
+// TestOperatorNests: the exhaustive operator-nest enumeration (phpgen/opnest.go) restricted to the
+// operators PHP 5.6 and PHP 7 share: every operator inside every operand position of every other one
+// (and the fusion-family triples; all triples in the thorough tier), rendered with only the mandatory
+// separators and with single spaces, must give identical trees, tokens and positions under 5.6 and 7.4.
+func TestOperatorNests(t *testing.T) {
+	failed := false
+	progs.EachNest(px.V56, true, func(name string, build func() *progs.NestProgram) bool {
+		for _, kind := range []phpgen.PolicyKind{phpgen.PolicyMinimal, phpgen.PolicySpace} {
+			np := build()
+			if np == nil {
+				return true
+			}
+			src := append([]byte{}, np.G.Render(np.Root, phpgen.Policy{Kind: kind}).Src...)
+			harness.Class("operator-nest")
+			harness.EvalN(2)
+			cl, m, ok := compare(src, px.V56, px.V74)
+			if !ok {
+				harness.Failf(t, "operator-nests/common-rejected", src, meta(px.V56, px.V74), "%s: an expression of the common subset is rejected: %s\nsource: %q", name, m, src)
+				failed = true
+				return false
+			}
+			if cl != "" {
+				harness.Failf(t, "operator-nests/"+cl, src, meta(px.V56, px.V74), "%s: %s\nsource: %q", name, m, src)
+				failed = true
+				return false
+			}
+			harness.NonTrivial([]byte(name+fmt.Sprint(kind)), fmt.Sprintf("[5.6|7.4] %s: %q", name, src))
+		}
+		return true
+	})
+	_ = failed
+}
